@@ -7,6 +7,7 @@ import (
 	"encoding/json"
 	"fmt"
 	"net"
+	"strconv"
 	"strings"
 
 	"github.com/ochinchina/sipproxy/vrt"
@@ -437,7 +438,93 @@ func c20DialsMade(cs c20Case, i int) int {
 	return n
 }
 
+// c20UDPFault: write faults on the UDP path. A request routed to a UDP next hop is so large that it no
+// longer fits into a datagram once the proxy has added its Via (the kernel answers EMSGSIZE): that
+// send fails - an error, not a crash, and nothing else may break. NSend such requests are relayed in a
+// row (the next hop may or may not have been learned through the listener before: Secondary =
+// "learned" | "unknown"); afterwards an ordinary request to the same next hop, a request for the
+// backends and a request of the next hop itself must all be served ("later messages go straight to the
+// working path").
+func c20UDPFault(cs c20Case) (string, string) {
+	cfg := RCfg{Name: "svc.example.com", Listens: []RListen{{Addr: "127.0.0.1", UDP: 5060, TCP: 5062, Backends: []string{"udp://127.0.1.1:7000"}}}}
+	w := StartRelayWorld(SimOpts{}, cfg)
+	defer w.Close()
+	const hop, ua, lst = "127.0.2.1:5070", "127.0.0.9:5060", "127.0.0.1:5060"
+	seq := 0
+	req := func(from, ruri, route string, pad int) *WMsg {
+		seq++
+		sp := MsgSpec{Method: "MESSAGE", RURI: ruri, Vias: []string{fmt.Sprintf("SIP/2.0/UDP %s;branch=z9hG4bKuf%d", from, seq)}, From: "<sip:a@ua.example.net>;tag=f", To: "<sip:b@far.example.net>",
+			CallID: fmt.Sprintf("uf-%d", seq), CSeq: "1 MESSAGE"}
+		if route != "" {
+			sp.Routes = []string{route}
+		}
+		m := sp.Build()
+		if pad > 0 {
+			// the datagram as sent is exactly `pad` bytes long
+			for n := pad - len(m.Render()); n > 0; n = pad - len(m.Render()) {
+				m.Body = append(m.Body, bytes.Repeat([]byte("x"), n)...)
+				for i := range m.Hdrs {
+					if m.Hdrs[i].Name == "Content-Length" {
+						m.Hdrs[i].Value = strconv.Itoa(len(m.Body))
+					}
+				}
+				if len(m.Render()) > pad {
+					m.Body = m.Body[:len(m.Body)-(len(m.Render())-pad)]
+					for i := range m.Hdrs {
+						if m.Hdrs[i].Name == "Content-Length" {
+							m.Hdrs[i].Value = strconv.Itoa(len(m.Body))
+						}
+					}
+					break
+				}
+			}
+		}
+		return m
+	}
+	if cs.Secondary == "learned" {
+		w.SendUDP(hop, lst, req(hop, "sip:b@svc.example.com", "", 0).Render())
+		w.Observe()
+	}
+	for i := 0; i < cs.NSend; i++ {
+		big := req(ua, "sip:b@far.example.net", "<sip:"+hop+";lr>", 65500)
+		w.SendUDP(ua, lst, big.Render())
+		obs := w.Observe()
+		if vd := w.S.Verdict(); vd != "" {
+			return "crash", cs.sig() + ": oversized request " + fmt.Sprint(i+1) + ": " + vd + "\n" + w.S.CrashDetail()
+		}
+		for _, p := range obs.Pkts {
+			if m, err := ReadWire(p.Data); err != nil || len(m.Body) != len(big.Body) {
+				return "partial-or-foreign-bytes", fmt.Sprintf("%s: oversized request %d: a datagram of %d bytes that is not the whole message left towards %s", cs.sig(), i+1, len(p.Data), p.To)
+			}
+		}
+	}
+	// afterwards everything works as before
+	type probe struct {
+		name, from, to string
+		m              *WMsg
+	}
+	for _, pr := range []probe{
+		{"an ordinary request routed to the same next hop", ua, hop, req(ua, "sip:b@far.example.net", "<sip:"+hop+";lr>", 0)},
+		{"a request for the backends", ua, "127.0.1.1:7000", req(ua, "sip:b@svc.example.com", "", 0)},
+		{"a request of the next hop for the backends", hop, "127.0.1.1:7000", req(hop, "sip:b@svc.example.com", "", 0)},
+		{"a second ordinary request routed to the same next hop", ua, hop, req(ua, "sip:b@far.example.net", "<sip:"+hop+";lr>", 0)},
+	} {
+		w.SendUDP(pr.from, lst, pr.m.Render())
+		obs := w.Observe()
+		if vd := w.S.Verdict(); vd != "" {
+			return "crash", cs.sig() + ": " + pr.name + ": " + vd
+		}
+		if len(obs.Pkts) != 1 || obs.Pkts[0].To != pr.to {
+			return "later-message-not-delivered", fmt.Sprintf("%s: after %d sends that failed with 'message too long', %s was relayed as: %s (expected one datagram to %s)", cs.sig(), cs.NSend, pr.name, obs.Summary(), pr.to)
+		}
+	}
+	return "", ""
+}
+
 func c20Eval(cs c20Case) (cl string, detail string) {
+	if cs.Target == "udp-write-fault" {
+		return c20UDPFault(cs)
+	}
 	if strings.HasPrefix(cs.Target, "e2e") {
 		return c20E2E(cs)
 	}
@@ -493,6 +580,22 @@ func c20Plans(maxLen int, outcomes int) [][]int {
 func c20Run(c *Ctx) {
 	var idx int64
 	c20Sizes(c, &idx)
+	for _, learned := range []string{"learned", "unknown"} {
+		for n := 1; n <= 3; n++ {
+			idx++
+			if !c.Mine(idx) || c.Expired() {
+				continue
+			}
+			cs := c20Case{Target: "udp-write-fault", Primary: "absent", Secondary: learned, SecBreak: -1, NSend: n}
+			cl, detail := c20Eval(cs)
+			c.Res.Evaluations++
+			c.Res.Executions++
+			c.Res.Nontrivial++
+			if cl != "" {
+				c.Violate(cl+"|udp-write-fault|next-hop="+learned, cl, detail, cs)
+			}
+		}
+	}
 	maxPlan, maxSend := 3, 3
 	if c.Thorough() {
 		maxPlan, maxSend = 4, 4
